@@ -60,11 +60,9 @@ var malPaths = []string{"", "a", "a.b", "a.", ".a", "a..b", "0", "a.0", "a.0.b",
 // of the stream, which is what the in-Coq sample evaluates.
 var malDrawn int
 
-// window sizes between "large" and "absurd": bsonkit.Select allocates the
-// LIMIT as capacity (finding C20:huge-limit-preallocation): a limit of 2^31 is a
-// 17 GB allocation per call, which would take the harness down; they return to
-// the stream when Select caps its capacity by the input length
-var malBigWindow = []int64{}
+// window sizes between "large" and "absurd" (bsonkit.Select allocated the LIMIT
+// as capacity before /repo cddce86: 2^31 was a 17 GB allocation per call)
+var malBigWindow = []int64{1 << 31, 1 << 32, 1<<63 - 2}
 
 type malGen struct {
 	r     *rng
@@ -345,7 +343,8 @@ func genMalformed(r *rng) string {
 			spec = enc(g.weird(1))
 		}
 		win := append([]int64{-1, -2, 0, 1, 5, math.MaxInt64, math.MinInt64}, malBigWindow...)
-		return fmt.Sprintf("(find %s (D) %s %d %d)", sdEncDocs(docs), spec, pick(r, win), pick(r, win))
+		lim := win
+		return fmt.Sprintf("(find %s (D) %s %d %d)", sdEncDocs(docs), spec, pick(r, win), pick(r, lim))
 	}
 }
 
@@ -373,13 +372,15 @@ func (g *malGen) id() interface{} {
 	return pick(r, []interface{}{
 		bson.D{{Key: "k", Value: int32(r.intn(2))}},
 		bson.D{{Key: "k", Value: bson.A{int32(1), bson.D{{Key: "x", Value: nil}}}}},
-		bson.D{},
+		malEmptyID(),
 		primitive.Binary{Subtype: 0, Data: []byte{byte(r.intn(2))}},
 		primitive.Binary{Subtype: 128, Data: []byte{}},
 		int32(r.intn(3)), int64(1), float64(1), "s", nil, true,
 		primitive.Timestamp{T: 1, I: 1}, primitive.DateTime(0), math.Inf(1),
 	})
 }
+
+func malEmptyID() interface{} { return bson.D{} }
 
 func (g *malGen) projection() string {
 	r := g.r
@@ -470,6 +471,7 @@ func genAPIMal(r *rng) string {
 		return u
 	}
 	win := append([]int64{0, 0, 0, 1, 2, -1, -1, -5, math.MinInt64, math.MaxInt64}, malBigWindow...)
+	lim := win
 	afs := func() string {
 		var l []string
 		for i := r.intn(3); i > 0; i-- {
@@ -496,13 +498,19 @@ func genAPIMal(r *rng) string {
 		case k < 51:
 			parts = append(parts, "(fad "+s+" "+t+" "+enc(g.weirdAPI(2))+" "+g.optDoc(1)+" "+g.projection()+")")
 		case k < 68:
-			parts = append(parts, fmt.Sprintf("(find %s %s %s %s %s %d %d)", s, t, enc(filter()), g.optDoc(1), g.projection(), pick(r, win), pick(r, win)))
+			parts = append(parts, fmt.Sprintf("(find %s %s %s %s %s %d %d)", s, t, enc(filter()), g.optDoc(1), g.projection(), pick(r, win), pick(r, lim)))
 		case k < 74:
 			parts = append(parts, fmt.Sprintf("(findOne %s %s %s %s %s %d)", s, t, enc(filter()), g.optDoc(1), g.projection(), pick(r, win)))
 		case k < 80:
-			parts = append(parts, fmt.Sprintf("(count %s %s %s %d %d)", s, t, enc(filter()), pick(r, win), pick(r, win)))
+			parts = append(parts, fmt.Sprintf("(count %s %s %s %d %d)", s, t, enc(filter()), pick(r, win), pick(r, lim)))
 		case k < 85:
-			parts = append(parts, "(distinct "+s+" "+t+" "+hx(pick(r, malPaths))+" "+enc(filter())+")")
+			// Collection.Distinct panics deliberately on the empty field name
+			// ("lungo: missing field path", like a nil filter): excluded
+			f := pick(r, malPaths)
+			for f == "" {
+				f = pick(r, malPaths)
+			}
+			parts = append(parts, "(distinct "+s+" "+t+" "+hx(f)+" "+enc(filter())+")")
 		case k < 92:
 			partial := "NIL"
 			if r.chance(1, 2) {
